@@ -17,7 +17,11 @@ META = dict(technique='Coq proof (call-log invariant: every evaluated point is a
             level_note='Trusted: Coq kernel+VM; harness (generators, instrumentation of /repo from outside, printers, oracles). User cost/constraints/penalty, DE trial vectors, Nelder-Mead candidate points, argsort permutation and post-decoration populations are oracle inputs (recorded in the correspondence, universally quantified in theorems). Powell: line-search probes and the returned index are oracle inputs. Not in the machine model (oracle only): ensembles, tight/clip range modes. No NaN energies.',
             design_ref="5/C03")
 
-generate = SC.make_generate(**dict())
+_generate = SC.make_generate(**dict(allow_modes=True, det_modes=True))
+def generate(rng, n, tier):
+    from harness import solvergen as G
+    for c in _generate(rng, n, tier):
+        yield G.gen_tight_affine(rng) if rng.random() < 0.12 else c
 run_impl = SC.run_impl
 oracle = SC.oracle_c03
 coq_preamble = SC.coq_preamble
